@@ -131,6 +131,26 @@ class SimFile:
     image = getvalue
 
 
+class SimPipe(SimFile):
+    """read-only, non-seekable buffered stream (a file read through a pipe / stdin / a socket wrapped in a
+    BufferedReader): read(n) still returns n bytes unless end of data, but seek / tell are unsupported"""
+
+    def seek(self, pos, whence=0):
+        raise io.UnsupportedOperation("underlying stream is not seekable")
+
+    def tell(self):
+        raise io.UnsupportedOperation("underlying stream is not seekable")
+
+    def seekable(self):
+        return False
+
+    def writable(self):
+        return False
+
+    def write(self, b):
+        raise io.UnsupportedOperation("not writable")
+
+
 # ---------------------------------------------------------------------------------------------
 # image faults (applied by the "disk" between a writer and a later reader)
 # ---------------------------------------------------------------------------------------------
